@@ -231,7 +231,7 @@ def check_registries(ctx: Ctx) -> None:
                 other = [k_ for k_ in gkeys if key(k_) != "group_name"]
                 if other:
                     setattr(ctx, f"_c18_group_{obj}", True)
-                    ctx.violated(f, f.node, f"{q}: the {obj} is listed in the group table under its own group's name only", f"{gtab}[group_name].append({obj})", f"also listed under {', '.join(sorted({short(k_) for k_ in other}))[:120]}: whoever names that entry now reaches this {obj} as well")
+                    ctx.violated(f, f.node, f"{q}: the {obj} is listed in the group table under its own group's name only", f"{gtab}[group_name].append({obj})", f"also listed under {', '.join(sorted({short(k_) for k_ in other}))[:120]}: whoever names that entry now reaches this {obj} as well", guard="text", guard_text=__import__("ast").unparse(f.node))
             got = {key(strip_ver(c)): pol for c, pol, _ in p.conds}
             missing = [t for t in tests if got.get(t) is not False]
             if missing:
@@ -304,6 +304,10 @@ def r3(ctx: Ctx) -> None:
                             from ..kit import seq_value
 
                             v = seq_value(ip, d["accessible_markets_ids"], outer=(bp, p))
+                            raw = strip_ver(d["accessible_markets_ids"])
+                            if raw[0] == "call" and key(raw[1]) == "list" and len(raw[2]) == 1 and strip_ver(raw[2][0])[0] == "call" and key(strip_ver(raw[2][0])[1]) == "dict.fromkeys":
+                                ctx.unrec(f, e.node, "accessible ids = ids of all markets of all listed groups", "the list is passed through dict.fromkeys (duplicates removed, order kept): it differs from the list of all ids only where a market is reached twice; whether that can happen, and what should happen then, is not decided", short(raw)[:160])
+                                continue
                             ok = v is not None and v[0] == "comp" and v[1] == "seq" and len(v[3]) == 2
                             if ok:
                                 (g1n, g1s, g1c), (g2n, g2s, g2c) = v[3]
